@@ -386,7 +386,7 @@ impl Db {
             dir: dir.to_path_buf(),
             cfg: cfg.clone(),
             alive: true,
-            watchdog: Duration::from_secs(60),
+            watchdog: Duration::from_secs(40),
             panics: vec![],
             log: vec![],
         };
